@@ -3,7 +3,7 @@ from __future__ import annotations
 import json, math, os, subprocess, sys, warnings
 import numpy as np
 from .. import core, gen
-from . import c19_tas
+from . import c19_tas, c19_har
 
 ID = 'C19'
 LEVEL = 'proof'
@@ -249,6 +249,7 @@ def _haralick_options(mf, f, H, F, iz, dist, ndirs, same):
         out.append(dict(kind='property', key='haralick:option:return_mean_ptp', detail=dict(got=Hp.tolist())))
     if H14 is not None and (H14.shape != (ndirs, 14) or not same(H14[:, :13], H)):
         out.append(dict(kind='property', key='haralick:option:compute_14th_feature:first-13-changed', detail=dict(shape=list(H14.shape))))
+    out.extend(c19_har.f14_findings(f, [int(v) for v in f.ravel().tolist()], H14, iz, dist, ndirs))
     return out
 
 
